@@ -20,7 +20,7 @@ func init() {
 			"(6) the redis back-end reads the same options and maps must-not-exist to SetNX (not-ok -> ErrTTLKeyExists), keep-ttl to redis.KeepTTL, remove-after-get to GetDel, update-ttl to Expire, redis.Nil to ErrTTLKeyNotFound; (7) every time.Duration handed to redis that derives from a ttl (seconds, as fixed by now()+ttl with now()=Unix()) is multiplied by time.Second. " +
 			"NOT decided: behavioural agreement of the two back-ends over whole histories, redis server semantics, clock readings exactly on a deadline.",
 		Assumptions: []string{"container/list contract", "now() returns Unix seconds (read from its definition)", "go-redis command semantics"},
-		Floors:      map[string]int{"C05.guarded-by": 8, "C05.expiry-before-use": 2, "C05.index-list-coupled": 3, "C05.bound": 1, "C05.options": 4, "C05.deadline-fn": 1, "C05.redis-mapping": 5, "C05.ttl-unit": 3, "C05.ttl-source": 3},
+		Floors:      map[string]int{"C05.guarded-by": 8, "C05.expiry-before-use": 2, "C05.index-list-coupled": 3, "C05.bound": 1, "C05.options": 4, "C05.deadline-fn": 1, "C05.redis-mapping": 5, "C05.ttl-unit": 3, "C05.ttl-source": 3, "C05.redis-clear": 1},
 		Run:         runC05,
 	})
 }
@@ -861,5 +861,84 @@ func (x *ttlCtx) checkRedis() {
 			c.check(seenNil, "C05.redis-mapping", cons+" miss", getFn.Pos(), "redis.Nil -> ErrTTLKeyNotFound", "redis.Nil is no longer translated to ErrTTLKeyNotFound")
 		}
 	}
-	_ = fmt.Sprintf
+	// Clear: every key under the prefix is deleted — the enumeration must run to its end. Accepted forms: the
+	// ScanCmd iterator driven until Next reports false, or explicit paging until the returned cursor is 0.
+	if clearFn := c.mustFn(rel, "(*ttlRdsCache).Clear"); clearFn != nil {
+		cons := "(*cache.ttlRdsCache).Clear"
+		inl := func(callee *ssa.Function, depth int) bool { return false }
+		traces, complete := c.Trace(clearFn, TraceConfig{Inline: inl})
+		if !complete {
+			c.undecided("C05.redis-clear", cons, clearFn.Pos(), "path budget exceeded")
+		} else {
+			ok, n, dels := true, 0, 0
+			mname := func(e *Event) string {
+				if e.Kind == EvCall && e.Method != nil {
+					return e.Method.Name()
+				}
+				return ""
+			}
+			for _, t := range traces {
+				if t.End != EndReturn {
+					continue
+				}
+				n++
+				facts := t.factsBefore(len(t.Events))
+				// error exits: a command's Err() was found non-nil
+				errExit := false
+				var lastNext, scanRes *Event
+				scanned := false
+				for _, e := range t.Events {
+					switch mname(e) {
+					case "Err":
+						if hasFact(facts, func(f Fact) bool { return f.X.Key() == e.Res.Key() && f.Op == token.NEQ && f.Y.isNilConst() }) {
+							errExit = true
+						}
+					case "Scan":
+						scanned = true
+					case "Next":
+						lastNext = e
+					case "Result":
+						scanRes = e
+						if e.Res.Kind == KTuple && len(e.Res.Args) == 3 {
+							ev := e.Res.Args[2]
+							if hasFact(facts, func(f Fact) bool { return f.X.Key() == ev.Key() && f.Op == token.NEQ && f.Y.isNilConst() }) {
+								errExit = true
+							}
+						}
+					case "Del":
+						dels++
+					}
+				}
+				if errExit {
+					continue
+				}
+				why := ""
+				switch {
+				case !scanned:
+					why = "the keys under the prefix are not enumerated with SCAN on this path"
+				case lastNext != nil:
+					if v, known := boolFact(facts, lastNext.Res); !known || v {
+						why = "the iterator is abandoned before Next reported the end of the enumeration"
+					}
+				case scanRes != nil && scanRes.Res.Kind == KTuple && len(scanRes.Res.Args) == 3:
+					cur := scanRes.Res.Args[1]
+					if !hasFact(facts, func(f Fact) bool {
+						z, isz := f.Y.intConst()
+						return f.X.Key() == cur.Key() && isz && z == 0 && f.Op == token.EQL
+					}) {
+						why = "only the page returned by one SCAN call is handled: the cursor it returned is not driven to 0"
+					}
+				default:
+					why = "the SCAN result is neither iterated to its end nor paged until the cursor is 0"
+				}
+				if why != "" && ok {
+					ok = false
+					c.violated("C05.redis-clear", cons, clearFn.Pos(), why+": with more keys than one SCAN page returns, Clear leaves keys behind, the redis back-end keeps serving removed data (and reports already-exists) where the in-memory one is empty", c.witness(t, len(t.Events)-1)...)
+				}
+			}
+			if ok {
+				c.check(n > 0 && dels > 0, "C05.redis-clear", cons, clearFn.Pos(), fmt.Sprintf("%d normal exits, each after the enumeration ended; keys deleted with DEL", n), "Clear never issues DEL for the enumerated keys")
+			}
+		}
+	}
 }
